@@ -878,6 +878,8 @@ class Executor:
                 return [(st, (v.length,))]
             if attr in ('sum', 'any', 'all', 'copy'):
                 return [(st, ('arrmethod', v, attr))]
+        if isinstance(v, SBag) and attr in ('sum',):
+            return [(st, ('arrmethod', v, attr))]
         if isinstance(v, SSlice) and attr in ('start', 'stop', 'step'):
             return [(st, getattr(v, attr))]
         if isinstance(v, list) and attr in ('append', 'extend', 'copy', 'index'):
@@ -1292,18 +1294,29 @@ class Executor:
             live.assume(z3.Not(f))
         if not self.feasible(live):
             return outs
-        res = make_symbolic(c.returns, f'{c.name}_ret', self.registry, live)
-        cst2 = State(dict(env))
-        cst2.env['result'] = res
-        if is_init:
-            cst2.env['self'] = res
-        cst2.pc, cst2.facts = list(live.pc), list(live.facts)
-        sub.goal_mode = False
-        for e in c.ensures:
-            live.fact(sub.eval_cl(e[1] if isinstance(e, tuple) else e, cst2))
+        # result shape alternatives: returns = [(condition, type spec), ...] forks on the condition
+        alts = c.returns if isinstance(c.returns, list) else [(None, c.returns)]
         if c.mutates:
             raise Unsupported('callee with mutation frame')
-        outs.append((live, res))
+        for cond, spec in alts:
+            cur = live if len(alts) == 1 else live.clone()
+            if cond is not None:
+                f = z3.simplify(to_bool(sub.eval_cl(cond, cst)))
+                if z3.is_false(f):
+                    continue
+                cur.assume(f)
+                if not self.feasible(cur):
+                    continue
+            res = make_symbolic(spec, f'{c.name}_ret', self.registry, cur)
+            cst2 = State(dict(env))
+            cst2.env['result'] = res
+            if is_init:
+                cst2.env['self'] = res
+            cst2.pc, cst2.facts = list(cur.pc), list(cur.facts)
+            sub.goal_mode = False
+            for e in c.ensures:
+                cur.fact(sub.eval_cl(e[1] if isinstance(e, tuple) else e, cst2))
+            outs.append((cur, res))
         return outs
 
     # ------------------------------------------------------------------ contract language
